@@ -315,7 +315,8 @@ class Resolver:
 
     def __cmp(self, name, pat):
         if self.ignorecase:
-            return name.upper() == pat.upper()
+            # same notion of case-insensitivity as `glob` (str.upper() is not one-to-one: 'ß'.upper() == 'SS')
+            return re.match(r"(?s)" + re.escape(pat) + r"\Z", name, flags=re.IGNORECASE) is not None
         return name == pat
 
     @staticmethod
